@@ -37,7 +37,27 @@ class C06System(BuilderSystem):
             ["set_feed_rate", [self.feedv]],
         ]
 
-    def step(self, st, op):
+    SHUTDOWNS = (["tool_off"], ["power_off"], ["coolant_off"], ["emergency_halt", [MSG]])
+
+    probe_all = False
+
+    def step(self, st, op, probe=True):
+        before = None if self.probe_all else self.canon(st)
+        problems = self._step(st, op)
+        # quick tier: only behind transitions that the canonical form cannot see (the search would not look behind them otherwise)
+        probe = probe and (self.probe_all or (self.canon(st) == before and not st.last_rejected))
+        if probe and not problems and op[0] not in ("tool_off", "power_off", "coolant_off", "emergency_halt") and st.copyable:
+            # "from every state the builder can reach": the shutdown calls are also tried right behind every single transition, on a
+            # copy - two states that look alike through the canonical form may still differ in something it cannot see
+            scratch = st.snapshot()
+            for sd in self.SHUTDOWNS:            # one after the other on one copy: each of them has to work from wherever it is
+                for sig, msg in self._step(scratch, sd):
+                    problems.append((sig + ":right-after-" + op[0], msg + f" [tried right after {op}]"))
+                if problems:
+                    break
+        return problems
+
+    def _step(self, st, op):
         problems = []
         exc, chunks = self.apply(st, op)
         self.feed(st, chunks, problems)
@@ -104,12 +124,12 @@ def systems(tier):
     box = ("axes", (0, 0, 0), (10, 10, 10))
     cfgs = [
         ("no-bounds", [], (1000, 0)),
-        ("power-0-100", [("tool-power", 0, 100)], (100, 0)),
         ("power-10-100", [("tool-power", 10, 100)], (100, 10)),
         ("power-0.5-1", [("tool-power", 0.5, 1)], (1, 0.5)),
     ]
     if tier == "thorough":
         cfgs += [
+            ("power-0-100", [("tool-power", 0, 100)], (100, 0)),
             ("power-neg", [("tool-power", -5, -1)], (-1, -5)),
             ("feed-100-7000", [("feed-rate", 100, 7000)], (1000, 0)),
             ("axes-box", [box], (1000, 0)),
@@ -121,6 +141,9 @@ def systems(tier):
                             ("bed-temperature", 40, 60), ("hotend-temperature", 40, 60), ("chamber-temperature", 40, 60)], (100, 10)),
         ]
     out = [(label, C06System(label, b, pv), 60, None) for label, b, pv in cfgs]
+    if tier == "thorough":
+        for _, system, _, _ in out:
+            system.probe_all = True
     out.append(("bounds-set-at-run-time", C06LiveBounds("bounds-set-at-run-time", [], (1000, 2500)), 7 if tier == "thorough" else 4, None))
     return out
 
